@@ -71,6 +71,7 @@ def _key(site, J, D, err, det):
 
 def _friction(ctx, S, t, q, u, u_dot, la_F, label, ex, hrel=1e-4):
     P, sc = so.path(S, t, q, u, u_dot)
+    sc = sc * min(1.0, hrel / 1e-4)      # near the pole of the tangent construction the path steps shrink with the distance to it as well
     ok, gam = so.guarded(ctx, f"{label}.gamma_F", lambda: S.gamma_F(t, q, u), extra=ex, key_fn=_exc_key)
     if not ok:
         return
